@@ -36,8 +36,12 @@ def rotations_3d():
 
 
 def rotations_2d():
-    """Rotations about z (incl. the flipped frame d3 = -z is not a rotation about z: excluded)."""
-    return [rodrigues([0, 0, 1], a) for a in (0.0, np.pi / 2, np.pi, -np.pi / 2, 0.7, 2.1, 4.4)]
+    """Planar frames: rotations about z, and frames whose third director points along -z (a rotation by
+    pi about an in-plane axis composed with a rotation about z) - both are admissible for bodies moving
+    in the XY plane."""
+    rz = [rodrigues([0, 0, 1], a) for a in (0.0, np.pi / 2, np.pi, -np.pi / 2, 0.7, 2.1, 4.4)]
+    flip = rodrigues([1, 0, 0], np.pi)
+    return rz + [flip @ rodrigues([0, 0, 1], a) for a in (0.0, 0.7, 2.1)]
 
 
 # ------------------------------------------------------------------------------------ rods
